@@ -749,7 +749,7 @@ func (te *tableEngine) PlayerFold(playerID string) error {
 			playerState.GameStatistics.IsFt3B = true
 		}
 
-		if playerState.GameStatistics.IsFt3BChance {
+		if playerState.GameStatistics.IsFtCBChance {
 			playerState.GameStatistics.IsFtCB = true
 		}
 	}
